@@ -68,6 +68,15 @@ def gen_xslt():
     facts["find_entry_activates_param"] = bool(re.search(r"eParam\s*\)\s*\{\s*if\s*\(\s*fIsParam\s*==\s*true\s*\)\s*\{\s*if\s*\(\s*theEntry\.getName\(\)\s*->\s*equals\(qname\)\s*\)\s*\{\s*theEntry\.activate\(\)", b))
     b = body_of(vs, r"VariablesStack::push\s*\(\s*const\s+StackEntry\s*&\s*theEntry\s*\)\s*\{", "VariablesStack::push")
     facts["push_tracks_frame_index"] = bool(re.search(r"if\s*\(\s*m_currentStackFrameIndex\s*==\s*m_stack\.size\(\)\s*\)\s*\{\s*\+\+m_currentStackFrameIndex", b))
+    b = body_of(vs, r"VariablesStack::PushParamFunctor::operator\(\)\s*\([^)]*\)\s*const\s*\{", "VariablesStack::PushParamFunctor::operator()")
+    sq = re.sub(r"\s+", "", b)
+    # every xsl:with-param goes on the stack as an (inactive) PARAM entry: third constructor argument true
+    facts["with_params_pushed_as_param_entries"] = (
+        "StackEntry(theEntry.m_qname,theEntry.m_value,true)" in sq and
+        "StackEntry(theEntry.m_qname,theEntry.m_variable,true)" in sq and
+        len(re.findall(r"StackEntry\(", sq)) == 2)
+    hpp = srcfacts.strip_comments(srcfacts.read("XSLT/VariablesStack.hpp"))
+    facts["stack_entry_is_param_defaults_to_false"] = len(re.findall(r"bool\s+isParam\s*=\s*false", hpp)) >= 2
     b = body_of(vs, r"VariablesStack::popElementFrame\s*\(\s*\)\s*\{", "VariablesStack::popElementFrame")
     facts["pop_frame_throws_on_context_marker"] = bool(re.search(r"eContextMarker\s*\)\s*\{[^}]*throw\s+InvalidStackContextException", b))
     # deactivation of params (VariablesStack::resetParams): never called in the tree with finding K-C01-1;
@@ -150,6 +159,10 @@ def gen_xslt():
     k = b.find("m_guardStack.push_back")
     facts["lazy_global_has_own_node_list"] = i >= 0 and bool(re.search(r"(ContextNodeListPushAndPop|pushContextNodeList)", b[max(k, 0):i]))
     facts["lazy_global_resets_copy_text_nodes_only"] = i >= 0 and bool(re.search(r"(SetAndRestoreCopyTextNodesOnly|pushCopyTextNodesOnly)", b[max(k, 0):i]))
+
+    ase = srcfacts.strip_comments(srcfacts.read("XSLT/ElemAttributeSet.cpp"))
+    b = body_of(ase, r"ElemAttributeSet::startElement\s*\([^)]*\)\s*const\s*\{", "ElemAttributeSet::startElement")
+    facts["attribute_set_hides_locals_by_context_marker"] = "pushContextMarker" in b and "pushCurrentStackFrameIndex" not in b
 
     order = sorted(facts)
     text = "(* generated by translator/gen_xslt.py from src/xalanc/XSLT/{XSLTEngineImpl,ElemAttribute,VariablesStack,\n" \
